@@ -20,12 +20,44 @@ pub fn run(r: &mut Rep) {
             r.viol("C12|load_unsafe|lidt-operand-is-not-the-table-address-with-limit-4095", &format!("load {}", n), &format!("{:x?} expected Lidt(4095, {:#x})", ev, base));
         }
     }
+    run_cs(r);
     cpu().clear_events();
     let _ = run_stepped(|| static_idt.load());
     let ev = cpu().evs();
     r.ev(true);
     if !(ev.len() == 1 && matches!(ev[0], Ev::Lidt(4095, b, _) if b == static_idt as *const _ as u64)) {
         r.viol("C12|load|lidt-operand-is-not-the-table-address-with-limit-4095", "load static", &format!("{:x?}", ev));
+    }
+}
+
+/// set_handler_addr under an emulated code segment: the gate must carry the CS the CPU reports
+pub fn run_cs(r: &mut Rep) {
+    use x86_64::structures::idt::{Entry, HandlerFunc};
+    use x86_64::VirtAddr;
+    crate::simcpu::init();
+    for cs in [0x08u16, 0x10, 0x33, 0x1b, 0xfff8, 0x0, 0xffff, 0x28] {
+        for addr in [0xffff_8000_0012_3000u64, 0x0000_7fff_ffff_f000, 0x1000] {
+            cpu().sel[1] = cs;
+            cpu().clear_events();
+            let res = run_stepped(|| {
+                let mut e: Entry<HandlerFunc> = Entry::missing();
+                unsafe { e.set_handler_addr(VirtAddr::new(addr)) };
+                crate::c12::gate_bytes(&e)
+            });
+            r.ev(true);
+            match res {
+                Ok(b) => {
+                    let g = crate::c12::decode_gate(&b);
+                    if g.selector != cs || g.offset != addr || !g.p || g.typ != 0xE || g.dpl != 0 || g.ist != 0 {
+                        r.viol("C12|set_handler_addr|gate-does-not-carry-the-current-code-segment", &format!("gatecs {:#x} {:#x}", cs, addr), &format!("{:x?}", g));
+                    }
+                    if cpu().evs() != [Ev::MovFromSeg(1, cs)] {
+                        r.viol("C12|set_handler_addr|does-not-read-cs-exactly-once", &format!("gatecs {:#x} {:#x}", cs, addr), &format!("{:x?}", cpu().evs()));
+                    }
+                }
+                Err(()) => r.viol("C12|set_handler_addr|panics", &format!("gatecs {:#x} {:#x}", cs, addr), ""),
+            }
+        }
     }
 }
 
